@@ -15,6 +15,9 @@
 // Part 4 (twin.go): two or three providers (or one provider under two hosts) alive in the same process and sharing
 // parts of their configuration are driven in turns; device codes are polled where they were not issued.
 //
+// Part 5 (entropy.go): the process's entropy source (crypto/rand.Reader) hands out its bytes in legal short reads;
+// device flows under each pattern, and the device codes of a pattern must still vary in >= 128 bits worth of positions.
+//
 // In parts 1, 2 and 4 every provider answers several device authorizations (by several clients) and the user form is
 // configured as a path on the issuer or as the deprecated complete URL: a response must not depend on the flows before it.
 package main
@@ -28,10 +31,12 @@ func main() {
 	run.SetRule("part 1: random histories (6-35 ops) of device_authorization / approve(user) / deny / expire / poll over clients {dev, dev2 confidential+Basic; devpub public; devjwt private_key_jwt; web without the device grant; ghost unregistered}, polls by the own / a foreign / an unauthenticated client (also a foreign client proving its own identity while the form names the owner), with unknown codes (garbage, the user code, truncated, extended, case-flipped, absent) and under storage faults (time-out injected or through an expired request context, plain error, server_error, cancelled context), each history executed on both routers in a fresh world; every device-authorization response and every poll is an evaluation; distinct = distinct vectors (router, code kind, own/foreign, owner kind>presenter kind, credential kind/standing, model state incl. expired / earlier denial, storage behaviour, poll-again) for polls and (router, client kind, credential kind, number of scopes) for device authorizations. " +
 		"part 2: generated device-authorization configurations, 2 requests + pending poll + approval through the user code + poll on each router; distinct = (router, alphabet kind, amount bucket, dash class, lifetime, poll interval, form path, issuer mode, form knob {path, url, url-deep, url-query}, client kind, first/later flow of the provider); 2-4 flows per provider. " +
 		"in parts 1, 2 and 4 the user form is the form path or the deprecated complete form URL (1 history in 7 with parameters of its own) and verification_uri must be exactly the configured form address for every flow of a provider - no user code, of this or an earlier flow - while verification_uri_complete adds exactly this flow's code. " +
-		"part 4: 2-3 providers alive together (same form URL string / same issuer with other form paths / URL beside path / host-derived issuers / identical but for the storage) or one provider under two hosts, 4-8 device authorizations in turns on both routers judged against the answering provider's own configuration, then per flow: poll at another provider before and after the approval (unknown code there: refused), pending poll, approval through the user code of the complete URI, poll (tokens); distinct = (router, mode, side, client kind, first/later at this provider)")
+		"part 4: 2-3 providers alive together (same form URL string / same issuer with other form paths / URL beside path / host-derived issuers / identical but for the storage) or one provider under two hosts, 4-8 device authorizations in turns on both routers judged against the answering provider's own configuration, then per flow: poll at another provider before and after the approval (unknown code there: refused), pending poll, approval through the user code of the complete URI, poll (tokens); distinct = (router, mode, side, client kind, first/later at this provider). " +
+		"part 5: crypto/rand.Reader replaced, one pattern at a time, by a reader passing on the real source's bytes as {full reads (control), one byte per call, half, all but one byte, 7-byte chunks, random chunks, random chunks with (0,nil) answers}; per pattern generated configurations x 3-5 complete flows (device authorization judged in full, pending poll, approval through the user code, tokens) alternating routers; per (pattern, router) group of >= 64 device codes the encoded-length bound is taken over the character positions that vary within the group (one symbol: 0 bits, <= 4 symbols: log2, else the class capacity) and must be >= 128 bits; distinct = (router, pattern, client kind, alphabet class, amount bucket, dash class, first/later flow)")
 	run.Assume(
 		"vstore policy (as the repository's example storage): GetDeviceAuthorizatonState answers only for the client id it is asked with, so 'a code of another client is refused' is decided by what client id the library hands to the storage",
-		"unguessability of the device code is only sampled: at least 128 bits of encoded length and no repeat among all device codes drawn in the run (a monitor cannot decide unpredictability)",
+		"unguessability of the device code is only sampled: at least 128 bits of encoded length and no repeat among all device codes drawn in the run (a monitor cannot decide unpredictability); under the short-reading entropy sources of part 5 the length bound counts only the character positions that vary over the codes of a group",
+		"the entropy source of the process is part of the configuration: any io.Reader-conforming pattern of delivering sound random bytes (short reads, empty answers with a nil error) is legal; a source that fails is not injected (crypto/rand.Read ends the process on it - no provider answer to judge)",
 		"expiry is produced by moving the stored expiry a day back, never by waiting; lifetimes are >= 30 s so that no case is near a temporal boundary; the stored expiry is compared with request time + lifetime within +-2 s",
 		"after a foreign, unauthenticated or failing attempt on a device code later success is grey; approved-then-expired, approved-after-denial, a second poll after success, odd presentations (secret in the form for a Basic client, superfluous secret of a public client) and device codes of a client without the device grant (LegacyServer, judged by C05) are grey for success and strict for refusal",
 		"whether a client may start a device flow (grant registration, credentials at /device_authorization) is C05's question and only counted here",
@@ -55,13 +60,19 @@ func main() {
 		for _, m := range twinModes {
 			run.Mandatory("twin:" + m)
 		}
+		for _, m := range entModes {
+			run.Mandatory("entropy:"+m+":provider", "entropy:"+m+":legacy")
+		}
 	}
 
 	nHist := run.N(2000, 50000)
 	nCfg := run.N(200, 5000)
 	nTwin := run.N(180, 3000)
+	nEnt := run.N(64, 1000) // per entropy pattern
 	if rc := run.ReplayCase(); rc >= 0 {
-		if rc >= twinBase {
+		if rc >= entBase {
+			replayEntropy(run, rc-entBase, nEnt)
+		} else if rc >= twinBase {
 			runTwin(run, int(rc-twinBase))
 		} else if rc >= hangBase {
 			runHang(run)
@@ -86,6 +97,10 @@ func main() {
 		runTwin(run, i)
 	})
 	<-hangDone
+	// part 5 replaces a global of the process: it runs when nothing else does, one pattern after the other
+	for m := range entModes {
+		runEntropyMode(run, m, nEnt)
+	}
 	finish(run)
 }
 
